@@ -471,6 +471,89 @@ Section OwnProof.
 
   Theorem own_heap_irrelevant_put : forall (st : ost) s owned, o_heap (fst (put_slot st s owned)) = o_heap st.
   Proof. reflexivity. Qed.
+
+  (* ---------- the API layer (aop): which object keeps which nodes alive ---------- *)
+
+  Lemma find_app_ : forall (A : Type) (f : A -> bool) (a b : list A),
+    find f (a ++ b) = match find f a with Some x => Some x | None => find f b end.
+  Proof. intros A f a b. induction a as [|x a IH]; [reflexivity|]. simpl. destruct (f x); [reflexivity|exact IH]. Qed.
+
+  Lemma find_del_other : forall (os : objs) s t, t <> s ->
+    find (fun p : nat * list nat => fst p =? s) (del_obj os t) = find (fun p : nat * list nat => fst p =? s) os.
+  Proof.
+    intros os s t Hts. unfold del_obj. induction os as [|[a o] l IH]; [reflexivity|]. cbn [filter find fst].
+    destruct (Nat.eqb_spec a t) as [Hat|Hat]; cbn [negb].
+    - destruct (Nat.eqb_spec a s) as [Has|Has]; [congruence|]. exact IH.
+    - cbn [find fst]. destruct (Nat.eqb_spec a s); [reflexivity|exact IH].
+  Qed.
+
+  Lemma astep_fst : forall (st : ost) a, fst (astep st a) = ostep st (aop_oop a).
+  Proof. intros st a. unfold astep. destruct (aop_oop a); reflexivity. Qed.
+
+  (* "edges, paths and search results keep the nodes they mention alive": whatever object currently sits in a slot,
+     none of the nodes it owns has been released *)
+  Theorem own_object_keeps_alive : forall ops,
+    legal_run (@o_init K V E) ops ->
+    forall s owned, get_obj (o_objs (orun (@o_init K V E) ops)) s = Some owned ->
+    forall u, In u owned -> ~ In u (o_released (orun (@o_init K V E) ops)).
+  Proof.
+    intros ops HL s owned Hg u Hin. apply (own_held_not_released ops HL).
+    pose proof (@get_some_count _ _ _ u Hg) as Hc. apply count_id_pos in Hin. lia.
+  Qed.
+
+  (* what the API objects mention is what they own *)
+  Lemma edge_owns_endpoints : forall e : edge E, In (esrc e) (edge_owns e) /\ In (edst e) (edge_owns e).
+  Proof. intros e. unfold edge_owns. simpl. auto. Qed.
+
+  Lemma path_owns_endpoints : forall (p : list (edge E)) e, In e p -> In (esrc e) (path_owns p) /\ In (edst e) (path_owns p).
+  Proof.
+    intros p e Hin. unfold path_owns. split; apply in_flat_map; exists e; (split; [exact Hin|]); apply edge_owns_endpoints.
+  Qed.
+
+  Lemma graph_owns_members : forall (g : list (K * nat)) k u, In (k, u) g -> In u (graph_owns g).
+  Proof. intros g k u Hin. unfold graph_owns. apply in_map_iff. exists (k, u). split; [reflexivity|exact Hin]. Qed.
+
+  (* re-assigning a slot releases nothing when every node of the old content is still owned by the new content or by
+     another live object: Graph::insert (the container owns a superset) and Graph::remove (the handle handed out owns the
+     removed node) never release a node value *)
+  Lemma put_no_release : forall (st : ost) s new,
+    (forall x, In x (old_of (o_objs st) s) -> In x new \/ strong (del_obj (o_objs st) s) x > 0) ->
+    snd (put_slot st s new) = [].
+  Proof.
+    intros st s new Hkeep. destruct (snd (put_slot st s new)) as [|u r] eqn:Hrel; [reflexivity|].
+    assert (Hin : In u (snd (put_slot st s new))) by (rewrite Hrel; left; reflexivity).
+    apply put_snd_in in Hin. destruct Hin as [Hold [Hz _]]. rewrite put_strong in Hz.
+    destruct (Hkeep u Hold) as [Hn | Hs]; [apply count_id_pos in Hn|]; lia.
+  Qed.
+
+  Theorem own_container_insert_releases_nothing : forall (st : ost) s (g : list (K * nat)) (k : K) (u : nat),
+    get_obj (o_objs st) s = Some (graph_owns g) ->
+    snd (astep st (@AGraph K E s (g ++ [(k, u)]))) = [].
+  Proof.
+    intros st s g k u Hg. unfold astep, aop_oop. apply put_no_release. intros x Hx. left.
+    unfold old_of in Hx. rewrite Hg in Hx. unfold graph_owns in *. rewrite map_app. apply in_or_app. left. exact Hx.
+  Qed.
+
+  (* Graph::remove(k) hands the node out into slot t first; then the container lets go of it *)
+  Theorem own_container_remove_releases_nothing : forall (st : ost) s t (g g' : list (K * nat)) u,
+    Slots st -> t <> s ->
+    get_obj (o_objs st) s = Some (graph_owns g) ->
+    (forall x, In x (graph_owns g) -> x = u \/ In x (graph_owns g')) ->
+    (forall x, In x (old_of (o_objs st) t) -> strong (del_obj (o_objs st) t) x > 0 \/ x = u) ->
+    snd (astep st (@ANode K E t u)) = [] /\ snd (astep (fst (astep st (@ANode K E t u))) (@AGraph K E s g')) = [].
+  Proof.
+    intros st s t g g' u HS Hts Hg Hsub Hold. split.
+    - unfold astep, aop_oop. apply put_no_release. intros x Hx. destruct (Hold x Hx) as [H|H]; [right; exact H|left; left; symmetry; exact H].
+    - unfold astep at 1. unfold aop_oop at 1. apply put_no_release. intros x Hx.
+      rewrite astep_fst in Hx |- *. cbn [aop_oop ostep] in Hx |- *. rewrite put_objs in Hx |- *.
+      assert (Hget : get_obj (del_obj (o_objs st) t ++ [(t, [u])]) s = Some (graph_owns g)).
+      { clear Hx. unfold get_obj in *. rewrite find_app_.
+        pose proof (@find_del_other (o_objs st) s t Hts) as Hf.
+        rewrite Hf. destruct (find (fun p : nat * list nat => fst p =? s) (o_objs st)) as [q|]; [exact Hg|discriminate Hg]. }
+      unfold old_of in Hx. rewrite Hget in Hx. destruct (Hsub x Hx) as [Hxu | Hin]; [right|left; exact Hin].
+      subst x. unfold del_obj. rewrite filter_app, strong_app. cbn [filter fst].
+      destruct (Nat.eqb_spec t s) as [H|_]; [congruence|]. cbn [negb]. rewrite strong_cons, strong_nil. cbn [count_id]. rewrite Nat.eqb_refl. lia.
+  Qed.
 End OwnProof.
 
 (* ---------- non-vacuity ---------- *)
@@ -512,5 +595,8 @@ Print Assumptions own_release_exactly_at_zero.
 Print Assumptions own_put_release_exactly_at_zero.
 Print Assumptions own_heap_irrelevant.
 Print Assumptions own_heap_irrelevant_put.
+Print Assumptions own_object_keeps_alive.
+Print Assumptions own_container_insert_releases_nothing.
+Print Assumptions own_container_remove_releases_nothing.
 Print Assumptions own_example.
 Print Assumptions own_reassign_example.
